@@ -48,7 +48,7 @@ TypeKinds == Simple \cup Containers \cup Lists \cup {"REF"}
 \* number of constraint / shape codes per kind (0 = unconstrained); the printer gives them text
 CodesOf(k) == CASE k = "INTEGER" -> 0..5 [] k = "ENUMERATED" -> 0..2 [] k = "BITSTRING" -> 0..2
                 [] k = "OCTETSTRING" -> 0..2 [] k \in Lists -> 0..1
-                [] k \in {"NumericString", "PrintableString", "VisibleString", "IA5String", "BMPString", "UniversalString", "UTF8String"} -> 0..2
+                [] k \in {"NumericString", "PrintableString", "VisibleString", "IA5String", "BMPString", "UniversalString", "UTF8String"} -> 0..3
                 [] OTHER -> {0}
 \* kinds for which the printer can write a DEFAULT / value
 Valued == {"NULL", "BOOLEAN", "INTEGER", "ENUMERATED", "BITSTRING", "OCTETSTRING", "OID", "IA5String", "UTF8String", "PrintableString", "NumericString", "VisibleString"}
